@@ -115,6 +115,16 @@ def bind1(ctx, modules: Iterable[str], rule: str = "BIND-1") -> int:
         has_star = any(a.op == "star" for a in pos)
         has_dstar = any(a.op == "dstar" for a in t.args[1:])
         cands = _dispatch_filter(cands, pos)
+        if not cands and f.op == "attr" and f.args[1] in ("_replace", "_asdict", "_make", "count", "index"):
+            # members every typing.NamedTuple / collections.namedtuple class gets from the factory, not from its body
+            rc_ = w.ev.static_type(f.args[0], e.frame) if hasattr(w.ev, "static_type") else None
+            lay_ = w.ev.layout_of(f.args[0], e.frame) if rc_ is None and hasattr(w.ev, "layout_of") else None
+            if rc_ is None and lay_ is not None and lay_[0] == "rec":
+                rc_ = lay_[1]
+            ci_ = ctx.p.classes.get(rc_) if rc_ else None
+            if ci_ is not None and ci_.is_namedtuple:
+                external += 1
+                continue
         if not cands and f.op == "attr":
             key = (rule, _site_label(e, fi), _callee_label(f), "missing")
             if key in seen:
